@@ -3,7 +3,7 @@ from ..core import kdsl, kgen
 from ..runner import Facet, Property
 
 WEIGHTS = {"timeout": 5, "wait": 9, "succeed": 3, "fail": 3, "join": 6, "spawn": 3, "cb": 2, "cbjoin": 2,
-           "return": 1, "raise": 1, "interrupt": 1}
+           "return": 1, "raise": 1, "interrupt": 1, "chain": 3}
 
 
 def classify(res):
@@ -30,6 +30,10 @@ def classify(res):
         classes.add("already-processed yield")
     if h.stats.get("double_trigger"):
         classes.add("double trigger")
+    if h.stats.get("chain"):
+        classes.add("chained event (trigger callback)")
+    if h.stats.get("chain_from_handled_failure"):
+        classes.add("chained to a failure that an earlier waiter handled")
     if h.stats.get("rewait"):
         classes.add("re-wait after failure/interrupt")
     if res.ended != "exhausted":
@@ -103,7 +107,8 @@ PROP = Property(
           "failing after the condition was decided still has to make step() raise."),
     facets=[Facet("programs", strategy, run_case, quick=3000, thorough=20000,
                   essential=["multi-waiter", "already-processed yield", "double trigger", "unhandled failure raises",
-                             "child raises -> joiner", "callback+process waiters"]),
+                             "child raises -> joiner", "callback+process waiters", "chained event (trigger callback)",
+                             "chained to a failure that an earlier waiter handled"]),
             Facet("until_event", until_strategy, run_until, quick=1200, thorough=8000,
                   essential=["until-event with later waiters", "until-event with earlier waiters"]),
             Facet("condition_waiters", cond_strategy, run_cond, quick=1500, thorough=8000,
